@@ -15,7 +15,10 @@ use crate::response::{Response, StatusCode};
 use crate::server::MAX_PAYLOAD_SIZE;
 use vmm_sys_util::sock_ctrl_msg::ScmSocket;
 
+#[cfg(not(micro_http_verif_small))]
 const BUFFER_SIZE: usize = 1024;
+#[cfg(micro_http_verif_small)]
+const BUFFER_SIZE: usize = 32;
 const SCM_MAX_FD: usize = 253;
 
 /// Describes the state machine of an HTTP connection.
@@ -547,6 +550,93 @@ impl<T: Read + Write + ScmSocket> HttpConnection<T> {
     /// Returns `true` if there are bytes waiting to be written into the stream.
     pub fn pending_write(&self) -> bool {
         self.response_buffer.is_some() || !self.response_queue.is_empty()
+    }
+}
+
+#[cfg(micro_http_verif)]
+impl<T> HttpConnection<T> {
+    /// Verification hook: canonical digest of the connection state (everything except the
+    /// stream and the bytes of `buffer` beyond `read_cursor`). Used by the external harness
+    /// for state de-duplication and coverage counts only.
+    pub fn verif_digest(&self) -> Vec<u8> {
+        fn put(out: &mut Vec<u8>, tag: u8, bytes: &[u8]) {
+            out.push(tag);
+            out.extend_from_slice(&(bytes.len() as u32).to_le_bytes());
+            out.extend_from_slice(bytes);
+        }
+        fn put_request(out: &mut Vec<u8>, r: &Request) {
+            put(out, b'l', format!("{:?}", r.request_line).as_bytes());
+            let h = &r.headers;
+            put(
+                out,
+                b'h',
+                format!(
+                    "{} {} {} {:?}",
+                    h.content_length(),
+                    h.expect(),
+                    h.chunked(),
+                    h.accept()
+                )
+                .as_bytes(),
+            );
+            let mut custom: Vec<(&String, &String)> = h.custom_entries().iter().collect();
+            custom.sort();
+            for (k, v) in custom {
+                put(out, b'k', k.as_bytes());
+                put(out, b'v', v.as_bytes());
+            }
+            match &r.body {
+                Some(b) => put(out, b'b', b.raw()),
+                None => out.push(b'n'),
+            }
+            put(out, b'f', &(r.files.len() as u32).to_le_bytes());
+        }
+        let mut out = Vec::new();
+        out.push(match self.state {
+            ConnectionState::WaitingForRequestLine => 0,
+            ConnectionState::WaitingForHeaders => 1,
+            ConnectionState::WaitingForBody => 2,
+            ConnectionState::RequestReady => 3,
+        });
+        out.extend_from_slice(&(self.read_cursor as u32).to_le_bytes());
+        let live = self.read_cursor.min(self.buffer.len());
+        put(&mut out, b'B', &self.buffer[..live]);
+        put(&mut out, b'V', &self.body_vec);
+        out.extend_from_slice(&self.body_bytes_to_be_read.to_le_bytes());
+        match &self.pending_request {
+            Some(r) => {
+                out.push(b'P');
+                put_request(&mut out, r);
+            }
+            None => out.push(b'p'),
+        }
+        for r in self.parsed_requests.iter() {
+            out.push(b'Q');
+            put_request(&mut out, r);
+        }
+        for r in self.response_queue.iter() {
+            let mut bytes = Vec::new();
+            let _ = r.write_all(&mut bytes);
+            put(&mut out, b'R', &bytes);
+        }
+        match &self.response_buffer {
+            Some(b) => put(&mut out, b'W', b),
+            None => out.push(b'w'),
+        }
+        out.extend_from_slice(&(self.files.len() as u32).to_le_bytes());
+        out.extend_from_slice(&(self.payload_max_size as u64).to_le_bytes());
+        out
+    }
+
+    /// Verification hook: the bytes of `buffer` beyond `read_cursor` (not live data).
+    pub fn verif_dead_tail(&self) -> Vec<u8> {
+        let live = self.read_cursor.min(self.buffer.len());
+        self.buffer[live..].to_vec()
+    }
+
+    /// Verification hook: the receive buffer size of this build.
+    pub fn verif_buffer_size() -> usize {
+        BUFFER_SIZE
     }
 }
 
